@@ -91,6 +91,12 @@ ValCloseF(s, z, v, scale, arpack, f) ==
                                 ELSE OmClose(z, Mu(s.p, v.id), RMul(f, scale)))
     ELSE FALSE
 ValClose(s, z, v, scale) == ValCloseF(s, z, v, scale, s.o.sparse, ROne)
+(* dense frequency path (QZ): next to 2^-30 max mu the logged normwise forward bound q of the pair is admitted *)
+ValCloseQ(s, z, v, scale, q) ==
+    IF v.id # 0 /\ v.form = "om" /\ ~s.o.sparse /\ RLt(RMul(Tau, scale), q)
+    THEN OmClose(z, Mu(s.p, v.id), RDiv(q, Tau))
+    ELSE ValClose(s, z, v, scale)
+QzBound(o, c) == IF c <= Len(o.res) /\ ~o.res[c].skip /\ IsFin(o.res[c].q) THEN Obs(o.res[c].q) ELSE RZero
 (* the observed residual of pair c: || (K + lambda KG) v || <= 2^-30 (||K|| + |lambda| ||KG||) ||v||, v # 0
    (an observation, not an oracle); not defined for an infinite multiplier *)
 ResOK(r, z) == IF r.skip THEN ~IsFin(z[1])
@@ -138,7 +144,7 @@ Mismatch(s, e) ==
        ELSE IF o.nvals # Len(s.vals) THEN "number-of-values"
        ELSE IF o.nr # s.vec.nr \/ o.nc # nc THEN "shape-of-modes"
        ELSE IF ~(\A j \in 1..Len(o.nzrows) : o.nzrows[j] \in support) THEN "zero-pattern"
-       ELSE IF \E c \in 1..o.nvals : ~ValClose(s, o.vals[c], s.vals[c], scale) THEN "values"
+       ELSE IF \E c \in 1..o.nvals : ~ValCloseQ(s, o.vals[c], s.vals[c], scale, QzBound(o, c)) THEN "values"
        ELSE IF \E c \in 1..Min2(o.nvals, nc) :
                     ~s.unspec /\ ~ModesUnspecified(s) /\ ~InfiniteMultiplier(s, c) /\ ~ResOK(o.res[c], o.vals[c])
             THEN "residual"
